@@ -36,6 +36,15 @@ Not here: that a run *ends* — every theorem is of the form "if the run returne
 "reachable ⇒ a route is returned" holds among the outcomes result / "no path" (the premise `hres`),
 which excludes the explicit termination and the failing calls listed in
 `config_run_result_or_benign`, and the model's two schedule-replay errors.
+
+Outside every theorem (ordered fields have no +∞, NaN or overflow), tied by the correspondence run
+only, oracles silent: a tentative cost of +∞ (1e308 m at weight 10) or NaN never improves on a
+*missing* label — `tentative < Cost::INFINITY` in the code, `Lit.belowInf` in the model (constantly
+true in a field: `LawfulLit.belowInf_eq`; the IEEE test at `Float`) —, so the far end of such an edge
+stays unlabelled and a destination behind it is answered "no path" (corpus witnesses; the
+extreme-value stream of harness/src/searchprops.rs).  Modelled rather than verified — the NaN-free
+domain: the code orders costs by `OrderedFloat`'s total order (NaN greatest, NaN = NaN), the model by
+IEEE `<`; they differ only on NaN operands, which no file or JSON document can supply.
 -/
 import Compass.Proofs.SearchOpt
 import Compass.Proofs.ConfigUniform
